@@ -2399,10 +2399,11 @@ func builtinIsType(env *LEnv, args *LVal) *LVal {
 	}
 	typesym := typespec.Str
 	if typespec.Type == LTaggedVal {
-		if typesym != env.Runtime.Registry.Lang+":typedef" {
+		name, _, ok := env.typedefParts(typespec)
+		if !ok {
 			return env.Errorf("first argument is not a valid type specifier: %v", typesym)
 		}
-		typesym = typespec.Cells[0].Cells[0].Str
+		typesym = name.Str
 	}
 	t := GetType(v)
 	return Bool(t.Str == typesym)
